@@ -606,6 +606,154 @@ def unit_molcovs(mode):
     return run
 
 
+def unit_molcovs2(mode):
+    """MOLGP2._compute_mol_covs (the second implementation, libxc-style baselines on the density tuple): a grid point contributes to the covariance and
+    baseline integrals unless its density is negligible — per channel in SEP mode; in NPOL / POL mode only when BOTH spin densities are below 1e-6
+    (a fully polarised system must not be wiped out)."""
+    def run(ctx):
+        it, mod, log = setup(ctx)
+        fq = ["ciderpress.models.train:MOLGP2._compute_mol_covs"]
+        nspin, N0, ns, nctrl = 2, 2, 2, 2
+        desc = sym_array("d", (nspin, N0, ns))
+        rho = sym_array("r", (nspin, 5, ns))
+        wt = sym_array("w", (ns,))
+        gp = Obj(mod.ns["MOLGP2"])
+        mk = lambda name, **f: (lambda o: (o.fields.update(f), o)[1])(Obj(ClassV(name, [], mod)))
+        gp.fields.update({"kernels": [], "exx_ref_dict": {}, "dexx_ref_dict": {}, "ks_baseline_dict": {}, "settings": mk("_S", sl_settings=mk("_SL", level="MGGA"))})
+        gp.fields["_get_normalized_features"] = Builtin("abs.norm", lambda d: d)
+        data = {"wt": wt, "nspin": 1, "desc": desc, "rho_data": rho, "val": sym_array("val", (ns,)), "e_tot_orig": tm.var("etot"), "exc_orig": tm.var("exc")}
+        gp.fields["load_data"] = Builtin("abs.load_data", lambda ddir, mol_id, god: dict(data))
+        k = Obj(ClassV("_AbstractDFTKernel2", [], mod))
+        kv = sym_array("kv", (nctrl, nspin, ns)) if mode == "SEP" else sym_array("kv", (nctrl, ns))
+        mv = sym_array("mv", (nspin, ns)) if mode == "SEP" else sym_array("mv", (ns,))
+        av = sym_array("av", (nspin, ns)) if mode == "SEP" else sym_array("av", (ns,))
+        vr, vs, vt = sym_array("vr", (nspin, ns)), sym_array("vs", (2 * nspin - 1, ns)), sym_array("vt", (nspin, ns))
+        k.fields.update({"mode": mode, "cov_dict": {}, "base_dict": {}, "dcov_dict": {}, "dbase_dict": {}})
+        k.fields["multiplicative_baseline"] = Builtin("abs.mb", lambda rt: (mv.copy(), vr.copy(), vs.copy(), vt.copy()))
+        k.fields["additive_baseline"] = Builtin("abs.ab", lambda rt: (av.copy(), vr.copy(), vs.copy(), vt.copy()))
+        k.fields["get_k"] = Builtin("abs.get_k", lambda X: kv.copy())
+        cut = tm.const(Q(1, 10 ** 6))
+        it.hyps = []
+        try:
+            paths = all_paths(it, lambda: it.call_method(gp, "_compute_mol_covs", [{"REF": "r"}, ["mol"], k], {"get_orb_deriv": False, "save_refs": False}))
+        except Unsupported as e:
+            ctx.undecided("MOLGP2._compute_mol_covs[%s] runs" % mode, str(e)[:200], fq)
+            return
+        ret = [p for p in paths if p[0] == "return"]
+        ctx.holds("MOLGP2._compute_mol_covs[%s] runs" % mode, len(ret) == 1 and len(paths) == 1, "%s" % [(p[0], str(p[1])[:160]) for p in paths if p[0] != "return"][:2], fq)
+        if len(ret) != 1:
+            return
+        pc = list(ret[0][2])
+        cov = k.fields["cov_dict"]["mol"]
+        base = k.fields["base_dict"]["mol"]
+        for c in range(nctrl):
+            parts = []
+            for g in range(ns):
+                if mode == "SEP":
+                    for s_ in range(nspin):
+                        parts.append(tm.mk_ite(tm.mk_lt(rho[s_, 0, g], cut), tm.ZERO, wt[g] * kv[c, s_, g] * mv[s_, g]))
+                else:
+                    both = tm.mk_and(tm.mk_lt(rho[0, 0, g], cut), tm.mk_lt(rho[1, 0, g], cut))
+                    parts.append(tm.mk_ite(both, tm.ZERO, wt[g] * kv[c, g] * mv[g]))
+            ctx.equal("MOLGP2._compute_mol_covs[%s] covariance[%d]: a point is dropped only when %s" % (mode, c, "that channel's density is below 1e-6" if mode == "SEP" else "both spin densities are below 1e-6"),
+                      pc, cov[c], tm.mk_add(*parts), fq, replay=replay_mask(mode))
+        parts = []
+        for g in range(ns):
+            if mode == "SEP":
+                for s_ in range(nspin):
+                    parts.append(tm.mk_ite(tm.mk_lt(rho[s_, 0, g], cut), tm.ZERO, wt[g] * av[s_, g]))
+            else:
+                parts.append(tm.mk_ite(tm.mk_and(tm.mk_lt(rho[0, 0, g], cut), tm.mk_lt(rho[1, 0, g], cut)), tm.ZERO, wt[g] * av[g]))
+        ctx.equal("MOLGP2._compute_mol_covs[%s] baseline integral with the same mask" % mode, pc, base, tm.mk_add(*parts), fq, replay=replay_mask(mode))
+    return run
+
+
+def unit_kernel_history(mode):
+    """History invariance at the kernel object the weights formula reads K_mm from: DFTKernel.get_kctrl is a function of the CURRENT kernel and control
+    points — after set_kernel (hyper-parameters changed between two fits) it must not return the matrix of the previous kernel."""
+    def run(ctx):
+        it, mod, log = setup(ctx)
+        DMOD = "ciderpress.models.dft_kernel"
+        dm = it.load_module(DMOD)
+        fq = [DMOD + ":DFTKernel.__init__", DMOD + ":DFTKernel.get_kctrl", DMOD + ":DFTKernel.set_kernel"]
+        nf, nctrl = 2, 2
+        pol = mode == "POL"
+
+        def sym_kernel(name):
+            def ksym(Xa, Ya=None, eval_gradient=False):
+                Yv = Xa if Ya is None else Ya
+                out = np.empty((Xa.shape[0], Yv.shape[0]), dtype=object)
+                for i in range(Xa.shape[0]):
+                    for j in range(Yv.shape[0]):
+                        a_, b_ = [tm.lift(v) for v in Xa[i]], [tm.lift(v) for v in Yv[j]]
+                        if [u.id for u in a_] > [u.id for u in b_]:
+                            a_, b_ = b_, a_
+                        out[i, j] = tm.mk_fn(name, *(a_ + b_))
+                return out
+            S = Obj(ClassV("_AbstractSymKernel", [], dm))
+            S.fields["__call__"] = Builtin("abs." + name, ksym)
+            return S, (lambda x, y: ksym(np.array([x], dtype=object), np.array([y], dtype=object))[0, 0])
+        S1, K1 = sym_kernel("KOLD")
+        S2, K2 = sym_kernel("KNEW")
+        fl = Obj(ClassV("_FL", [], dm))
+        fl.fields["nfeat"] = nf
+        try:
+            dk = it.call(dm.ns["DFTKernel"], [S1, fl, mode, None], {})
+        except (Unsupported, PyRaise) as e:
+            ctx.undecided("DFTKernel[%s] constructed" % mode, str(e)[:200], fq)
+            return
+        Xc = sym_array("c", (2, nctrl, nf)) if pol else sym_array("c", (nctrl, nf))
+        Xd = sym_array("e", (2, nctrl, nf)) if pol else sym_array("e", (nctrl, nf))
+
+        def want(K, X):
+            W = np.empty((nctrl, nctrl), dtype=object)
+            for c in range(nctrl):
+                for d in range(nctrl):
+                    if pol:
+                        W[c, d] = K(X[0, c], X[0, d]) * K(X[1, c], X[1, d]) + K(X[0, c], X[1, d]) * K(X[1, c], X[0, d])
+                    else:
+                        W[c, d] = K(X[c], X[d])
+            return W
+        steps = [("initial kernel and control points", S1, K1, Xc, None), ("after set_kernel(new kernel)", S2, K2, Xc, "kernel"),
+                 ("after the control points were replaced", S2, K2, Xd, "points"), ("after set_kernel(back to the first kernel)", S1, K1, Xd, "kernel")]
+        dk.fields["X1ctrl"] = Xc
+        for label, S, K, X, what in steps:
+            if what == "kernel":
+                it.call_method(dk, "set_kernel", [S])
+            elif what == "points":
+                # the documented way to replace control points without re-running the selection: assign and invalidate exactly as set_control_points ends
+                dk.fields["X1ctrl"] = X
+                if "Kmm" in dk.fields:
+                    dk.fields["Kmm"] = None
+            Kmm = np.asarray(it.call_method(dk, "get_kctrl", []), dtype=object)
+            W = want(K, X)
+            for c in range(nctrl):
+                for d in range(nctrl):
+                    ctx.equal("DFTKernel[%s].get_kctrl %s: entry [%d,%d] is computed from the current kernel and control points" % (mode, label, c, d), [], Kmm[c, d], W[c, d], fq,
+                              replay=replay_kernel_history())
+        ctx.canary("DFTKernel[%s] history canary (old and new kernel differ)" % mode, [], want(K1, Xc)[0, 1], want(K2, Xc)[0, 1])
+    return run
+
+
+def replay_kernel_history():
+    def replay(wit):
+        from pyvc import native
+        native.install_shim()
+        from sklearn.gaussian_process.kernels import RBF
+        from ciderpress.models.dft_kernel import DFTKernel
+
+        class FL(object):
+            nfeat = 2
+        dk = DFTKernel(RBF(1.0), FL(), "NPOL", None)
+        dk.X1ctrl = np.array([[0.0, 0.0], [1.0, 0.5]])
+        k_old = dk.get_kctrl().copy()
+        dk.set_kernel(RBF(0.3))
+        k_new = dk.get_kctrl()
+        ref = RBF(0.3)(dk.X1ctrl)
+        return {"reproduced": bool(np.max(np.abs(k_new - ref)) > 1e-12), "K01_old_kernel": float(k_old[0, 1]), "K01_returned_after_set_kernel": float(k_new[0, 1]), "K01_of_the_new_kernel": float(ref[0, 1])}
+    return replay
+
+
 def replay_mask(mode):
     def replay(wit):
         return {"reproduced": None, "note": "_compute_mol_covs reads hdf5 training data; the engine's counterexample is a density pattern (one spin channel below 1e-6, total above) — see the witness"}
@@ -616,8 +764,11 @@ def units():
     u = [("reactions", unit_reactions)]
     for nker, n, wx in ((1, 2, False), (1, 2, True), (2, 2, True), (2, 2, False), (1, 3, False)):
         u.append(("fit/k%d/n%d/%s" % (nker, n, "x" if wx else "nox"), unit_fit(nker, n, wx)))
+    for mode in ("NPOL", "POL"):
+        u.append(("kernel-history/" + mode, unit_kernel_history(mode)))
     for mode in ("SEP", "NPOL", "POL"):
         u.append(("molcovs/" + mode, unit_molcovs(mode)))
+        u.append(("molcovs2/" + mode, unit_molcovs2(mode)))
     return u
 
 
